@@ -68,6 +68,9 @@ func (tc TimeCodec) Read(data []byte, ptr unsafe.Pointer, wt plenccore.WireType)
 	var offset int
 	for offset < l {
 		wt, index, n := plenccore.ReadTag(data[offset:])
+		if n <= 0 {
+			return 0, fmt.Errorf("invalid field tag in time")
+		}
 		offset += n
 
 		switch index {
@@ -186,6 +189,9 @@ func (tc TimeCompatCodec) Read(data []byte, ptr unsafe.Pointer, wt plenccore.Wir
 	var offset int
 	for offset < l {
 		wt, index, n := plenccore.ReadTag(data[offset:])
+		if n <= 0 {
+			return 0, fmt.Errorf("invalid field tag in time")
+		}
 		offset += n
 
 		switch index {
